@@ -3,6 +3,7 @@ package core
 import (
 	"bufio"
 	"bytes"
+	"encoding/binary"
 	"encoding/json"
 	"flag"
 	"fmt"
@@ -66,6 +67,7 @@ func WorkerMain(args []string) int {
 	maxSec := fs.Int("max-seconds", 0, "")
 	digestsN := fs.Uint64("digests", 0, "record digests for indices below this")
 	replays := fs.String("replays", "", "directory for minimised plans")
+	sigFile := fs.String("sigfile", "", "write the distinct non-trivial signatures here (binary, 8 bytes each) instead of returning them inline")
 	noShrink := fs.Bool("no-shrink", false, "")
 	_ = fs.Parse(args)
 	prop := Lookup(*propID)
@@ -179,8 +181,18 @@ func WorkerMain(args []string) int {
 				OrigSize: planSize(plan), MinSize: planSize(min)})
 		}
 	}
-	for s := range sigNT {
-		out.Sigs = append(out.Sigs, s)
+	if *sigFile != "" {
+		buf := make([]byte, 0, 8*len(sigNT))
+		for s := range sigNT {
+			buf = binary.LittleEndian.AppendUint64(buf, s)
+		}
+		if err := os.WriteFile(*sigFile, buf, 0o644); err != nil {
+			out.Infra = err.Error()
+		}
+	} else {
+		for s := range sigNT {
+			out.Sigs = append(out.Sigs, s)
+		}
 	}
 	out.AllSigs = len(sigAll)
 	enc := json.NewEncoder(os.Stdout)
@@ -383,9 +395,15 @@ func BatchMain(args []string) int {
 	}
 	results := make([]wres, *workers)
 	done := make(chan int)
+	sigDir, err := os.MkdirTemp(filepath.Dir(self), "sigs")
+	if err != nil {
+		fmt.Fprintf(os.Stderr, "INFRA: %v\n", err)
+		return 2
+	}
+	defer os.RemoveAll(sigDir)
 	for w := 0; w < *workers; w++ {
 		go func(w int) {
-			results[w] = runWorker(1, append(append([]string{}, common...), "-offset", fmt.Sprint(w))...)
+			results[w] = runWorker(1, append(append([]string{}, common...), "-offset", fmt.Sprint(w), "-sigfile", filepath.Join(sigDir, fmt.Sprintf("w%d.bin", w)))...)
 			done <- w
 		}(w)
 	}
@@ -393,7 +411,7 @@ func BatchMain(args []string) int {
 		<-done
 	}
 	agg := WorkerOut{Faults: map[string]int{}, Probes: map[string]int{}, Digests: map[string]uint64{}}
-	sigs := map[uint64]struct{}{}
+	var sigList []uint64
 	for w, r := range results {
 		if r.err != nil {
 			fmt.Fprintf(os.Stderr, "INFRA: worker %d: %v\n", w, r.err)
@@ -409,8 +427,11 @@ func BatchMain(args []string) int {
 		agg.AllSigs += r.out.AllSigs
 		agg.ShrinkRuns += r.out.ShrinkRuns
 		agg.TimedOut = agg.TimedOut || r.out.TimedOut
-		for _, s := range r.out.Sigs {
-			sigs[s] = struct{}{}
+		sigList = append(sigList, r.out.Sigs...)
+		if b, err := os.ReadFile(filepath.Join(sigDir, fmt.Sprintf("w%d.bin", w))); err == nil {
+			for i := 0; i+8 <= len(b); i += 8 {
+				sigList = append(sigList, binary.LittleEndian.Uint64(b[i:]))
+			}
 		}
 		for k, v := range r.out.Faults {
 			agg.Faults[k] += v
@@ -430,6 +451,14 @@ func BatchMain(args []string) int {
 			agg.UnreproducedNote = r.out.UnreproducedNote
 		}
 	}
+	sort.Slice(sigList, func(i, j int) bool { return sigList[i] < sigList[j] })
+	nsigs := 0
+	for i := range sigList {
+		if i == 0 || sigList[i] != sigList[i-1] {
+			nsigs++
+		}
+	}
+	sigList = nil
 	// determinism self-test: same plans, other processes, other GOMAXPROCS
 	selfPairs := 0
 	selfFail := ""
@@ -505,7 +534,7 @@ func BatchMain(args []string) int {
 		cov := map[string]interface{}{
 			"evaluations":         agg.Evals,
 			"plans":               agg.Plans,
-			"distinct_nontrivial": len(sigs),
+			"distinct_nontrivial": nsigs,
 			"rule":                prop.Rule(),
 			"samples":             agg.Samples,
 			"simulated_events":    agg.Events,
@@ -544,7 +573,7 @@ func BatchMain(args []string) int {
 		}
 	}
 	fmt.Printf("verifsim: %d plans, %d simulated runs, %d distinct non-trivial, %d events, %.1fs, faults=%v\n",
-		agg.Plans, agg.Evals, len(sigs), agg.Events, wall, agg.Faults)
+		agg.Plans, agg.Evals, nsigs, agg.Events, wall, agg.Faults)
 	if len(fresh) == 0 && agg.Unreproduced > 0 {
 		fmt.Fprintf(os.Stderr, "INFRA: %d violation(s) were observed inside worker processes but none reproduces from its plan alone in a fresh process (the outcome depended on earlier plans run by the same process); first: %s\n", agg.Unreproduced, agg.UnreproducedNote)
 		return 2
@@ -561,7 +590,7 @@ func BatchMain(args []string) int {
 		}
 		return 1
 	}
-	if len(sigs) < 2 {
+	if nsigs < 2 {
 		fmt.Fprintf(os.Stderr, "INFRA: fewer than 2 distinct non-trivial runs - the workload explores nothing\n")
 		return 2
 	}
